@@ -1949,6 +1949,181 @@ proof_a!(c17_a0_a05, 2, {
 proof_b!(c17_b_a05_n0, 8, { a05::b(0) });
 proof_b!(c17_b_a05_n1, 8, { a05::b(1) });
 
+// ================================================================== corpus (follow-up shapes)
+
+// ---- p25: plain free fn with a parameter literally named `_self` (NOT async-trait output):
+//      the field must be called `_self`, a `fields(..)` expression over `_self` must see it
+pub mod p25 {
+    use super::*;
+    twin! { [instrument(skip(y), fields(k = _self as u32 + 1))]
+        pub fn us(_self: u8, x: u8, y: u8) -> u8 {
+            fx(_self as u32);
+            _self.wrapping_mul(3) ^ x.wrapping_add(y)
+        }
+    }
+    pub type In = (u8, u8, u8);
+    pub fn go(i: bool, (a, x, y): In) -> (u8, Eff) {
+        let r = if i { inst::us(a, x, y) } else { plain::us(a, x, y) };
+        (r, take())
+    }
+    pub const WANT: Want = Want {
+        name: sh("us"), level: 3, target: sh(inst::TARGET),
+        fields: &[sh("_self"), sh("x"), sh("k")], parent_kind: 0,
+    };
+}
+proof_a!(c17_a_p25, 2, {
+    let x: p25::In = kani::any();
+    let (r, _) = check_a(p25::go, x);
+    kani::cover!(r == 0 && x.0 == 255);
+});
+proof_b!(c17_b_p25, 8, {
+    let x: p25::In = kani::any();
+    let always: bool = kani::any();
+    let (r, e) = check_b(p25::go, x, always);
+    assert!(sh("_self") != sh("self"));
+    check_span(&p25::WANT, &[(K_U64, x.0 as u64), (K_U64, x.1 as u64), (K_U64, x.0 as u64 + 1)], 1, e.n);
+    check_no_event();
+    check_asked(always, 1);
+    kani::cover!(r == 0 && x.0 == 255 && always);
+    kani::cover!(!always);
+});
+
+// ---- p26: method-style helper: first parameter `_self: &Hv` (a receiver spelled as an
+//      ordinary parameter), recorded with Debug under the name `_self`; another arg skipped;
+//      `fields(..)` reads through `_self`
+pub struct Hv {
+    pub v: u32,
+}
+impl core::fmt::Debug for Hv {
+    fn fmt(&self, _: &mut core::fmt::Formatter<'_>) -> core::fmt::Result {
+        Ok(())
+    }
+}
+pub mod p26 {
+    use super::*;
+    twin! { [instrument(skip(x), fields(k = _self.v.wrapping_add(1)))]
+        pub fn mh(_self: &Hv, x: u8, z: u8) -> u32 {
+            fx(_self.v);
+            if z == 0 {
+                return _self.v;
+            }
+            _self.v.wrapping_sub(x as u32).rotate_left(z as u32 & 7)
+        }
+    }
+    pub type In = (u32, u8, u8);
+    pub fn go(i: bool, (v, x, z): In) -> (u32, Eff) {
+        let h = Hv { v };
+        let r = if i { inst::mh(&h, x, z) } else { plain::mh(&h, x, z) };
+        (r, take())
+    }
+    pub const WANT: Want = Want {
+        name: sh("mh"), level: 3, target: sh(inst::TARGET),
+        fields: &[sh("_self"), sh("z"), sh("k")], parent_kind: 0,
+    };
+}
+proof_a!(c17_a_p26, 2, {
+    let x: p26::In = kani::any();
+    let (r, _) = check_a(p26::go, x);
+    kani::cover!(x.2 == 0);
+    kani::cover!(x.2 != 0 && r == 1);
+});
+proof_b!(c17_b_p26, 8, {
+    let x: p26::In = kani::any();
+    let always: bool = kani::any();
+    let (r, e) = check_b(p26::go, x, always);
+    check_span(&p26::WANT, &[(K_DEBUG, 0), (K_U64, x.2 as u64), (K_U64, x.0.wrapping_add(1) as u64)], 1, e.n);
+    check_no_event();
+    kani::cover!(x.2 == 0);
+    kani::cover!(x.2 != 0 && r == 1);
+});
+
+/// B harness body shared by the boxed-future pairs: leaf pending `$n` times => `$n + 1`
+/// polls, each of which must run inside the span (one enter/exit per poll + one around the inner drop)
+macro_rules! boxed_b {
+    ($m:ident, $n:literal) => {{
+        let a: u8 = kani::any();
+        let (r, p, e) = check_b($m::go, ($n, a), true);
+        assert!(p == $n + 1 && e.n == 2);
+        check_span(&$m::WANT, &[(K_U64, a as u64)], p + 1, e.n);
+        check_no_event();
+        kani::cover!(r == 3);
+    }};
+}
+
+// ---- a06: NON-async fn whose tail is the *qualified* `std::boxed::Box::pin(async move {..})`,
+//      returning a `Send` boxed future
+pub mod a06 {
+    use super::*;
+    twin! { [instrument(skip(n))]
+        pub fn bq(n: u8, a: u8) -> Pin<Box<dyn Future<Output = u8> + Send>> {
+            std::boxed::Box::pin(async move {
+                fx(a as u32);
+                Leaf(n).await;
+                fx(2);
+                a.rotate_left(1)
+            })
+        }
+    }
+    pub type In = (u8, u8);
+    pub fn go(i: bool, (n, a): In) -> (u8, usize, Eff) {
+        let (r, p) = if i { drive(inst::bq(n, a), n as usize + 1) } else { drive(plain::bq(n, a), n as usize + 1) };
+        (r, p, take())
+    }
+    pub const WANT: Want =
+        Want { name: sh("bq"), level: 3, target: sh(inst::TARGET), fields: &[sh("a")], parent_kind: 0 };
+}
+proof_a!(c17_a_a06, 2, {
+    let a: u8 = kani::any();
+    let (r, p, _) = check_a1(a06::go, (1, a), true);
+    assert!(p == 2);
+    kani::cover!(r == 3);
+});
+proof_a!(c17_a0_a06, 2, {
+    let x: a06::In = kani::any();
+    kani::assume(x.0 <= 2);
+    let (_, p, _) = check_a1(a06::go, x, false);
+    assert!(p == x.0 as usize + 1);
+    kani::cover!(x.0 == 2);
+});
+proof_b!(c17_b_a06_n0, 8, { boxed_b!(a06, 0) });
+proof_b!(c17_b_a06_n1, 8, { boxed_b!(a06, 1) });
+
+// ---- a07: the same with a leading `::`
+pub mod a07 {
+    use super::*;
+    twin! { [instrument(skip(n))]
+        pub fn br(n: u8, a: u8) -> Pin<Box<dyn Future<Output = u8> + Send>> {
+            ::std::boxed::Box::pin(async move {
+                fx(a as u32);
+                Leaf(n).await;
+                fx(2);
+                a.rotate_left(1)
+            })
+        }
+    }
+    pub type In = (u8, u8);
+    pub fn go(i: bool, (n, a): In) -> (u8, usize, Eff) {
+        let (r, p) = if i { drive(inst::br(n, a), n as usize + 1) } else { drive(plain::br(n, a), n as usize + 1) };
+        (r, p, take())
+    }
+    pub const WANT: Want =
+        Want { name: sh("br"), level: 3, target: sh(inst::TARGET), fields: &[sh("a")], parent_kind: 0 };
+}
+proof_a!(c17_a_a07, 2, {
+    let a: u8 = kani::any();
+    let (r, p, _) = check_a1(a07::go, (1, a), true);
+    assert!(p == 2);
+    kani::cover!(r == 3);
+});
+proof_a!(c17_a0_a07, 2, {
+    let x: a07::In = kani::any();
+    kani::assume(x.0 <= 2);
+    let (_, p, _) = check_a1(a07::go, x, false);
+    assert!(p == x.0 as usize + 1);
+    kani::cover!(x.0 == 2);
+});
+proof_b!(c17_b_a07_n1, 8, { boxed_b!(a07, 1) });
+
 // vacuity twin: must FAIL (a span was recorded, the body ran inside it, the twins agree)
 proof_b!(c17_reach, 8, {
     let x: p01::In = kani::any();
